@@ -307,6 +307,8 @@ class MPEGPacketPMT(MPEGPacket):
             "tableid",
             "syntax_indicator",
             "program_number",
+            "version",
+            "current_next_indicator",
             "section",
             "last_section",
             "pcr_pid",
@@ -318,4 +320,4 @@ class MPEGPacketPMT(MPEGPacket):
             if getattr(self, attr) != getattr(__value, attr):
                 logger.error(f"Attr={attr}, Self={getattr(self, attr)} Other={getattr(__value, attr)} ")
                 return False
-            return True
+        return True
